@@ -67,6 +67,83 @@ impl<'l, Data> EventLoop<'l, Data> {
 /// standing for the borrowed value: `sources_at_lookup` is the slot list as it is when the event is looked up
 /// (BEFORE user code runs in process_events), `sources` is the slot list as it is when the post-action is applied
 /// (AFTER process_events -- user code may have changed it arbitrarily in between, hence two unrelated parameters);
+/// `poll`/`extra` are borrowed only after process_events has returned. `first_error` is the local of dispatch_events that
+/// remembers the first error of the batch (since the repair of F10 an error no longer ends the loop); it is passed in by
+/// value and its new value is what the slice returns.
+fn dispatch_events_per_event_body(&mut self, sources_at_lookup: &SourceList<'l, Data>, sources: &mut SourceList<'l, Data>, mut poll: &mut Poll, extra: &mut AdditionalLifecycleEventsSet, event: PollEvent, data: &mut Data, mut first_error: Option<crate::Error>) -> (r: Option<crate::Error>)
+//@ spec
+    requires all_accept::<Data>(), sources_at_lookup.wf(), old(sources).wf(),
+    ensures
+        final(sources).wf(), final(sources)@.len() == old(sources)@.len(),
+        // C15/C02 (F10): an error of this event's source does not end the batch (this body has no early exit) and is not
+        // lost: the FIRST error of the batch is kept for dispatch_events to return once every event has been handled
+        first_error is Some ==> r == first_error,
+        // C09 / C01: whatever the source returned or requested, nothing is applied to ANY OTHER source: every other
+        // slot keeps its dispatcher and generation, every other entry of the lifecycle set stays
+        forall|k: int| 0 <= k < old(sources)@.len() && k != event.token.inner.forget().sid() ==> #[trigger] final(sources)@[k] == old(sources)@[k],
+        event.token.inner.forget().sid() < old(sources)@.len() ==> final(sources)@[event.token.inner.forget().sid()].tok() == old(sources)@[event.token.inner.forget().sid()].tok(),
+        extra_frame(old(extra), final(extra), RegistrationToken::of(event.token.inner.forget())),
+        // C01 / C06: an event whose (generation-checked) token addresses no occupied slot -- a removed source, or a
+        // slot that has since been reused -- is dropped without touching anything
+        (sources_at_lookup.lookup(event.token.inner.forget()) is None || sources_at_lookup@[event.token.inner.forget().sid()].vacant())
+            ==> r == first_error && final(sources)@ == old(sources)@ && final(extra)@ == old(extra)@,
+        // C02: an event for a live source IS handed to that source's dispatcher (must-call witness) ...
+        sources_at_lookup.lookup(event.token.inner.forget()) is Some ==> (sources_at_lookup@[event.token.inner.forget().sid()].disp() matches Some(d) ==> {
+            &&& d.w_processed(event.readiness, event.token)
+            // C06: ... and if the source is gone from its slot when processing is over (it removed itself, returned
+            // Remove, or the slot was reused meanwhile) it has been asked to unregister before the loop lets go of it
+            &&& ((final(sources).lookup(event.token.inner.forget()) is None || final(sources)@[event.token.inner.forget().sid()].vacant()))
+                    ==> d.w_unregister_called(RegistrationToken::of(event.token.inner.forget()))
+            // C14/C15: ... and its lifecycle entry does not outlive it: the dispatcher confirmed the unregistration, or the entry
+            // has been dropped here (defect F11: a FAILING unregister used to leave it behind => `unreachable!()` next dispatch)
+            &&& ((final(sources).lookup(event.token.inner.forget()) is None || final(sources)@[event.token.inner.forget().sid()].vacant()))
+                    ==> (!final(extra)@.contains(RegistrationToken::of(event.token.inner.forget())) || d.w_unregistered(RegistrationToken::of(event.token.inner.forget())) || d.w_deferred())
+        }),
+//@ entry
+    let ghost sources0 = *sources;
+    let ghost extra0 = *extra;
+    proof { broadcast use RegistrationToken::lemma_of, TokenInner::lemma_forget_idem, TokenInner::lemma_forget; }
+//@ after <<let result = disp.process_events(>>
+            let ghost res0 = result;
+//@ before <<match ret {>>
+            // C09: the deferred request is taken out of (and cleared from) the loop-global cell on EVERY path, so it
+            // can never be carried over to a later event or to another source
+            assert(crate::ext::cell_was_set(&self.handle.inner.pending_action, PostAction::Continue)); /*@props C09*/
+            // C09: an explicit non-Continue return takes precedence over whatever was deferred
+            assert(res0 matches Ok(a0) ==> (!(a0 is Continue) ==> ret == a0)); /*@props C09,C06*/
+            // C15 (F10): a processing error is recorded, and nothing is applied for that event
+            assert(res0 is Err ==> (first_error is Some && ret is Continue)); /*@props C15,C02*/
+            // C01/C09/C14: every action below is applied to the source the event belongs to: the lookup key and the
+            // registration token handed to reregister/unregister are the event token with the sub-id cleared
+            assert(reg_token == event.token.inner.forget()); /*@props C01,C09,C14,C07*/
+//@ after <<match ret {>>
+            // C09: the effective action has been applied by now, to this source: Reregister re-registers (or is
+            // answered "deferred"), Disable asks it to unregister, Remove empties its slot, Continue changes nothing
+            // (a FAILED re-registration is recorded as the batch's error)
+            assert(ret is Reregister ==> disp.w_reregistered(RegistrationToken::of(reg_token)) || disp.w_deferred() || first_error is Some); /*@props C09*/
+            assert(ret is Disable ==> disp.w_unregister_called(RegistrationToken::of(reg_token))); /*@props C09,C07*/
+            assert(ret is Remove ==> sources.lookup(reg_token) is None || sources@[reg_token.sid()].vacant()); /*@props C09,C06*/
+            assert(ret is Continue ==> *sources == sources0 && *extra == extra0); /*@props C09*/
+//@ tail
+    first_error
+//@ alt
+//@ rw R10 1/2 <<self.handle.inner.sources.borrow()>> => <<sources_at_lookup>>
+//@ rw R10 2/2 <<self.handle.inner.sources.borrow()>> => <<sources>>
+//@ rw R10 1 <<self.handle.inner.sources.borrow_mut()>> => <<sources>>
+//@ rw R10 * <<&mut self.handle.inner.poll.borrow_mut()>> => <<&mut *poll>>
+//@ rw R10 * <<= self.handle.inner.poll.borrow_mut();>> => <<= &mut *poll;>>
+//@ rw R10 * <<self .handle .inner .sources_with_additional_lifecycle_events .borrow_mut()>> => <<(*extra)>>
+//@ closure <<|entry| entry.source.clone()>>
+-> (c: Option<Rc<dyn EventDispatcher<Data> + 'l>>) ensures c == entry.disp()
+//@ closure <<|entry| entry.source.is_none()>>
+-> (b: bool) ensures b == entry.vacant()
+//@ sig
+/// S1 slice of EventLoop::dispatch_events: the body of the `for event in ..` loop (one event of the batch).
+/// Free variables `event`, `data`, `self` become parameters; the loop head (Vec::drain().chain(), unsupported by
+/// Verus) and everything before it are dropped. Rule R10: each RefCell borrow of a loop cell becomes a parameter
+/// standing for the borrowed value: `sources_at_lookup` is the slot list as it is when the event is looked up
+/// (BEFORE user code runs in process_events), `sources` is the slot list as it is when the post-action is applied
+/// (AFTER process_events -- user code may have changed it arbitrarily in between, hence two unrelated parameters);
 /// `poll`/`extra` are borrowed only after process_events has returned.
 fn dispatch_events_per_event_body(&mut self, sources_at_lookup: &SourceList<'l, Data>, sources: &mut SourceList<'l, Data>, mut poll: &mut Poll, extra: &mut AdditionalLifecycleEventsSet, event: PollEvent, data: &mut Data) -> (r: crate::Result<()>)
 //@ spec
@@ -95,6 +172,8 @@ fn dispatch_events_per_event_body(&mut self, sources_at_lookup: &SourceList<'l, 
                     ==> (!final(extra)@.contains(RegistrationToken::of(event.token.inner.forget())) || d.w_unregistered(RegistrationToken::of(event.token.inner.forget())) || d.w_deferred())
         }),
 //@ entry
+    // (overlay for the shape BEFORE the repair of F10 -- `?` exits inside the body: kept so that the defect is reported,
+    //  not merely undecided, should it return)
     let ghost sources0 = *sources;
     let ghost extra0 = *extra;
     proof { broadcast use RegistrationToken::lemma_of, TokenInner::lemma_forget_idem, TokenInner::lemma_forget; }
@@ -143,6 +222,41 @@ fn dispatch_events_per_event_body(&mut self, sources_at_lookup: &SourceList<'l, 
 /// same sequence (synthetic events, then polled fd events, then expired timers). R10 as in per_event_body; the cell
 /// parameters are shared by all iterations, so this slice states NOTHING that depends on their contents across
 /// iterations -- its one clause is about the lookups made.
+fn dispatch_events_batch_loop(&mut self, batch: Vec<PollEvent>, sources_at_lookup: &SourceList<'l, Data>, sources: &mut SourceList<'l, Data>, mut poll: &mut Poll, extra: &mut AdditionalLifecycleEventsSet, data: &mut Data, mut first_error: Option<crate::Error>) -> (r: Option<crate::Error>)
+//@ spec
+    requires all_accept::<Data>(), sources_at_lookup.wf(), old(sources).wf(),
+    ensures
+        // C02 / C15: EVERY event of the batch is looked up (generation-checked; a live one is then handed to its source, see
+        // per_event_body) -- also the events behind one whose source returned an error: a failing source must not cost the
+        // others their events or their already-popped timer expirations (defect F10, repaired: the loop has no early exit
+        // any more; the first error is carried in `first_error` and returned after the loop).
+        forall|k: int| 0 <= k < batch@.len() ==> SourceList::<Data>::looked_up((#[trigger] batch@[k]).token.inner.forget()),
+//@ loop 1
+        invariant
+            all_accept::<Data>(), sources_at_lookup.wf(), sources.wf(),
+            lit.seq() == batch@,
+            forall|k: int| 0 <= k < lit.index@ ==> SourceList::<Data>::looked_up((#[trigger] batch@[k]).token.inner.forget()),
+//@ tail
+    first_error
+//@ alt
+//@ rw R20 1 <<for event in self.synthetic_events.drain(..).chain(events)>> => <<for event in lit: batch>>
+//@ rw R10 1/2 <<self.handle.inner.sources.borrow()>> => <<sources_at_lookup>>
+//@ rw R10 2/2 <<self.handle.inner.sources.borrow()>> => <<sources>>
+//@ rw R10 1 <<self.handle.inner.sources.borrow_mut()>> => <<sources>>
+//@ rw R10 * <<&mut self.handle.inner.poll.borrow_mut()>> => <<&mut *poll>>
+//@ rw R10 * <<= self.handle.inner.poll.borrow_mut();>> => <<= &mut *poll;>>
+//@ rw R10 * <<self .handle .inner .sources_with_additional_lifecycle_events .borrow_mut()>> => <<(*extra)>>
+//@ closure <<|entry| entry.source.clone()>>
+-> (c: Option<Rc<dyn EventDispatcher<Data> + 'l>>) ensures c == entry.disp()
+//@ closure <<|entry| entry.source.is_none()>>
+-> (b: bool) ensures b == entry.vacant()
+//@ sig
+/// S1 slice of EventLoop::dispatch_events: the WHOLE `for event in ..` statement (the per-event body is also verified on
+/// its own, see per_event_body, with the full contract). Rule R20: the iterator expression of the loop head
+/// (`Vec::drain(..).chain(..)`, which Verus cannot take) is replaced by a parameter `batch: Vec<PollEvent>` holding the
+/// same sequence (synthetic events, then polled fd events, then expired timers). R10 as in per_event_body; the cell
+/// parameters are shared by all iterations, so this slice states NOTHING that depends on their contents across
+/// iterations -- its one clause is about the lookups made.
 fn dispatch_events_batch_loop(&mut self, batch: Vec<PollEvent>, sources_at_lookup: &SourceList<'l, Data>, sources: &mut SourceList<'l, Data>, mut poll: &mut Poll, extra: &mut AdditionalLifecycleEventsSet, data: &mut Data) -> (r: crate::Result<()>)
 //@ spec
     requires all_accept::<Data>(), sources_at_lookup.wf(), old(sources).wf(),
@@ -158,5 +272,16 @@ fn dispatch_events_batch_loop(&mut self, batch: Vec<PollEvent>, sources_at_looku
             forall|k: int| 0 <= k < lit.index@ ==> SourceList::<Data>::looked_up((#[trigger] batch@[k]).token.inner.forget()),
 //@ tail
     Ok(())
+//@ endslice
+
+//@ slice src/loop_logic.rs / impl EventLoop<'l, Data> / fn dispatch_events :: after <<for event in self.synthetic_events.drain(..).chain(events)>> props=C15,C02 name=EventLoop::dispatch_events::result
+//@ sig
+/// S1 slice of EventLoop::dispatch_events: what follows the batch loop (its result).
+fn dispatch_events_result(first_error: Option<crate::Error>) -> (r: crate::Result<()>)
+//@ spec
+    ensures
+        // C15: the first error of the batch -- and nothing else -- is what the dispatch reports; no error, Ok
+        first_error matches Some(e) ==> r == Err::<(), crate::Error>(e),
+        first_error is None ==> r is Ok,
 //@ endslice
 }
